@@ -9,6 +9,7 @@ import (
 
 	"github.com/superfly/litefs"
 	rt "github.com/superfly/litefs/internal/verifrt"
+	"github.com/superfly/ltx"
 )
 
 func verifRequest(method, path, query string, nodeID string, body []byte) *http.Request {
@@ -153,4 +154,50 @@ func VerifC13ForwardedTx() {
 		rt.Reach("c13.tx.refused")
 	}
 	_ = store
+}
+
+// VerifC06ForwardedBadFile: the current halt-lock holder offers a transaction
+// file that does not extend the primary's exact position, or is damaged: it is
+// refused and nothing of it stays behind - position, image, transaction log,
+// halt lock and node all as before.
+func VerifC06ForwardedBadFile() {
+	ctx := context.Background()
+	s, store, db := verifServer(0)
+	pos0 := db.Pos()
+	hl, err := db.AcquireHaltLock(ctx, 7)
+	rt.Check(err == nil && hl != nil, "halt lock granted")
+	// (a body damaged without changing its length is decided by the file's CRC, which is an uninterpreted
+	// function here: that case is left to c18/ltx and not claimed)
+	kind := rt.Choose("file", 5) // 0 good, 1 min TXID too high, 2 min TXID too low, 3 other pre-checksum, 4 truncated
+	txid := uint64(42)
+	pre := pos0.PostApplyChecksum
+	switch kind {
+	case 1:
+		txid = 43
+	case 2:
+		txid = 41
+	case 3:
+		d := rt.U64("pre.delta")
+		rt.Assume(d != 0 && d>>63 == 0)
+		pre ^= ltx.Checksum(d)
+	}
+	file := litefs.VerifEncodeTx(db, 0xAA, ltx.TXID(txid), pre)
+	if kind == 4 {
+		file = file[:len(file)-1-rt.Choose("cut", 3)*200]
+	}
+	before := litefs.VerifSnapshotState(store)
+	w := &verifRW{}
+	s.serveHTTP(w, verifRequest("POST", "/tx", "name=db&lockID=7", "00000000000000AA", file))
+	code := w.code
+	if code == 0 {
+		code = 200
+	}
+	if kind == 0 {
+		rt.Check(code == 200 && db.Pos().TXID == 42, "a file that extends the exact position is applied")
+		rt.Reach("c06.forwarded.good")
+		return
+	}
+	rt.Check(code >= 400, "a forwarded file that does not extend the exact (ID, checksum) or is damaged is refused")
+	rt.Check(litefs.VerifSameState(before, litefs.VerifSnapshotState(store)), "a refused forwarded file leaves database, position, transaction log (no stray file), locks and halt lock unchanged")
+	rt.Reach("c06.forwarded.refused")
 }
